@@ -100,7 +100,10 @@ def run(c, replay):
     rm, out_m, err_m = V.model_run(mexe, "c14", inp)
     if rc != 0 or rm != 0:
         sig = "sanitizer" if "Sanitizer" in err_c or "runtime error" in err_c else "driver-failed"
-        c.violation(sig, dict(kind=sig, rc=[rc, rm], stderr=(err_c + err_m)[-3000:]), found_input=(sig == "sanitizer"))
+        last = [l for l in out_c.split("\n") if l.startswith("C ")]
+        case = [int(x) for x in last[-1].split()[1:]] + ["ALL"] if last else None
+        c.violation(sig, dict(kind=sig, rc=[rc, rm], case=case, what="the library's own ownership/routing code aborts under the sanitizer "
+                    "on this (lps, ranks, threads)", stderr=(err_c + err_m)[-3000:]), found_input=(sig == "sanitizer" and case is not None))
         return
 
     def blocks(txt):
